@@ -306,24 +306,8 @@ def minimise(case, sig):
         except Exception:  # noqa
             return False
 
-    if not has(text):
-        return case
-    n = 2
-    while len(text) >= 2:
-        chunk = max(1, len(text) // n)
-        reduced = False
-        for i in range(0, len(text), chunk):
-            cand = text[:i] + text[i + chunk:]
-            if cand != text and has(cand):
-                text = cand
-                n = max(n - 1, 2)
-                reduced = True
-                break
-        if not reduced:
-            if chunk == 1:
-                break
-            n = min(n * 2, len(text))
-    return {"text": text}
+    from vlib.shrink import ddmin_text
+    return {"text": ddmin_text(text, has)}
 
 
 def selfcheck():
